@@ -103,6 +103,27 @@ def run_refmut(item):
 
 for it in refmut.R.get(pid, []):
     jobs.append((run_refmut, it))
+def run_revert(item):
+    """A repaired defect re-introduced: the fix: commit reverse-applied (diff kept under /verif/fixes). The check must report it again."""
+    commit = item
+    d = scratch()
+    try:
+        a = subprocess.run(['patch', '-R', '-p1', '-s', '-f', '--no-backup-if-mismatch', '-i', f'/verif/fixes/{commit}.diff'], cwd=d, capture_output=True, text=True)
+        if a.returncode != 0:
+            return 'revert:' + commit, 'SKIPPED', 'later commits rewrote the lines of this fix'
+        st, info = check(d, '')
+        if st == 'NOCOMPILE':
+            return 'revert:' + commit, 'SKIPPED', 'the reverted tree does not compile (later commits build on the fix)'
+        return 'revert:' + commit, st, info
+    finally:
+        shutil.rmtree(d, ignore_errors=True)
+
+try:
+    for f in json.load(open('/verif/known_findings.json')).get('fixed', []):
+        if f['property'] == pid and os.path.exists(f"/verif/fixes/{f['commit']}.diff"):
+            jobs.append((run_revert, f['commit']))
+except Exception:
+    pass
 res = []
 with ThreadPoolExecutor(max_workers=10) as ex:
     for r in ex.map(lambda j: j[0](j[1]), jobs):
